@@ -7,8 +7,9 @@ C16 — soundness of the MONITOR that decides the property on implementation tra
 monitor on parsed values, OZ/Model/GatesMon.lean) returns a message on the implementation's
 observations. Here it is proved that on the observations of the MODEL the monitor never returns a
 message, for every host configuration, every sequence label whose constructor the model accepts
-and every finite history (`monitor_accepts_every_model_trace`) — for ALL EIGHT machines the driver
-runs: the pausable token (`ptok`), the pausable counter (`pcnt`), the AllowList / BlockList
+and every finite history (`monitor_accepts_every_model_trace`) — for the EIGHT machines the driver
+runs through `OZ.Gates.Mon.checkCore` (the ninth, `stk`, has its own monitor core and soundness theorem:
+OZ/Props/C16StkMon.lean): the pausable token (`ptok`), the pausable counter (`pcnt`), the AllowList / BlockList
 library types (`alib`, `blib`), the two list examples (`aex`, `bex`), the capped token (`cap`) and
 the migration contracts (`mig`, all three executables). Consequences:
 
@@ -21,14 +22,19 @@ the migration contracts (`mig`, all three executables). Consequences:
     time; `allowed()` / `blocked()` of every observed party equal the list built from the accepted
     list changes; every accepted transfer / transfer_from / approve / burn / burn_from had all its
     vetted parties allowed resp. not blocked; list changes of the examples need the authorizing
-    manager; the cap never moves and total_supply ≤ cap; migrate / ensure accepted only after an
+    manager; an accepted list change that does not flip the status of the account emits no list event
+    and changes no getter, one that does emits exactly the matching event, nothing else emits a list
+    event (`vListEv`: `site=list.idempotent.<machine>`, `site=list.event.<machine>`); the cap never
+    moves and total_supply ≤ cap; migrate / ensure accepted only after an
     enable / upgrade not yet consumed, `Migrating` follows the accepted calls, migrate / upgrade
     need the authorizing owner; a rejected call changes no getter) is a THEOREM about the model,
     in the monitor's own executable wording.
 
 The model observation used here IS the data the driver's model side prints: `OZ.Drv.C16.stepLine`
 runs `stepM` (below `OZ.Gates.Mon`) on the parsed op and `obsLine` prints the tag and the fields of
-`stableOf` of the resulting state (`modelObs`); `lineOf w auth op` is what `OZ.Drv.C16.parseLine`
+`stableOf` of the resulting state plus, under `ev=`, the events the call added to the module's log
+(`newEvents`; `modelObs` keeps the list-change events among them, which is what `parseObs` reads back from
+that word); `lineOf w auth op` is what `OZ.Drv.C16.parseLine`
 reads from the op line `parseAny` builds `(auth, op)` from (`w`: the `block` / `unblock` wording of
 a list change). `monInit p` / `initM p` are what the driver's `minitM` / `initM` build from the
 label parameters `p` (`paramsOf (parseLabel label)`).
@@ -158,87 +164,107 @@ theorem pcnt_facts (s : PCnt) (w : Bool) (auth : List Nat) (op : GOp) {st' : St}
 list exactly as the op line says -/
 theorem alib_facts (cfg : Cfg) (s : LTok) (mgr : Nat) (w : Bool) (auth : List Nat) (op : GOp) {st' : St}
     (h : applyALib cfg s auth op = some st') :
-    ∃ s', st' = .alib s' ∧ ListFacts true false mgr s.listed (lineOf w auth op) s'.listed := by
+    ∃ s', st' = .alib s' ∧ ListFacts true false mgr s.listed (lineOf w auth op) s'.listed ∧
+      ListEvFacts true s.listed (lineOf w auth op) ((s'.log.drop s.log.length).filter isListEv) (s' = s) := by
   cases op <;> simp only [applyALib] at h <;> try cases h
   case tok o =>
     obtain ⟨s', hx, e⟩ := okSt_some h
-    refine ⟨s', e, ⟨?_, (fun hf => by cases hf), ?_⟩⟩
+    refine ⟨s', e, ⟨?_, (fun hf => by cases hf), ?_⟩, ?_⟩
     · intro p hp
       have hp' : p ∈ vetted o := by rw [← vetted_tok]; exact hp
       exact allowlist_gates cfg s s' auth o hx p hp'
     · rw [alib_tok_listed hx]; exact (listStep_fungible _ _ _ _ _).symm
+    · rw [alib_tok_log hx]; exact listEv_tok _ _ _ _ _ _ _ _
   case setList u on x =>
     obtain ⟨s', hx, e⟩ := okSt_some h
-    refine ⟨s', e, ⟨?_, (fun hf => by cases hf), ?_⟩⟩
+    have hs' := alib_set_eq hx
+    obtain ⟨f1, f2⟩ := setFn_facts true on s u
+    refine ⟨s', e, ⟨?_, (fun hf => by cases hf), ?_⟩, ?_⟩
     · intro p hp; cases x <;> simp [lineOf, vettedOfCall] at hp
     · rw [alib_set_listed hx]; cases x <;> exact (listStep_set _ _ _ _ _ _ _).symm
+    · cases x <;> exact listEv_set _ _ _ _ _ _ _ _ _ _ _ (by rw [hs']; exact f2) (fun hg => by rw [hs']; exact f1 hg)
 
 /-- **BlockList library type** -/
 theorem blib_facts (cfg : Cfg) (s : LTok) (mgr : Nat) (w : Bool) (auth : List Nat) (op : GOp) {st' : St}
     (h : applyBLib cfg s auth op = some st') :
-    ∃ s', st' = .blib s' ∧ ListFacts false false mgr s.listed (lineOf w auth op) s'.listed := by
+    ∃ s', st' = .blib s' ∧ ListFacts false false mgr s.listed (lineOf w auth op) s'.listed ∧
+      ListEvFacts false s.listed (lineOf w auth op) ((s'.log.drop s.log.length).filter isListEv) (s' = s) := by
   cases op <;> simp only [applyBLib] at h <;> try cases h
   case tok o =>
     obtain ⟨s', hx, e⟩ := okSt_some h
-    refine ⟨s', e, ⟨?_, (fun hf => by cases hf), ?_⟩⟩
+    refine ⟨s', e, ⟨?_, (fun hf => by cases hf), ?_⟩, ?_⟩
     · intro p hp
       have hp' : p ∈ vetted o := by rw [← vetted_tok]; exact hp
       exact blocklist_gates cfg s s' auth o hx p hp'
     · rw [blib_tok_listed hx]; exact (listStep_fungible _ _ _ _ _).symm
+    · rw [blib_tok_log hx]; exact listEv_tok _ _ _ _ _ _ _ _
   case setList u on x =>
     obtain ⟨s', hx, e⟩ := okSt_some h
-    refine ⟨s', e, ⟨?_, (fun hf => by cases hf), ?_⟩⟩
+    have hs' := blib_set_eq hx
+    obtain ⟨f1, f2⟩ := setFn_facts false on s u
+    refine ⟨s', e, ⟨?_, (fun hf => by cases hf), ?_⟩, ?_⟩
     · intro p hp; cases x <;> simp [lineOf, vettedOfCall] at hp
     · rw [blib_set_listed hx]; cases x <;> exact (listStep_set _ _ _ _ _ _ _).symm
+    · cases x <;> exact listEv_set _ _ _ _ _ _ _ _ _ _ _ (by rw [hs']; exact f2) (fun hg => by rw [hs']; exact f1 hg)
 
 /-- **fungible-allowlist example**: additionally a list change needs the authorizing manager, and
 the manager set is fixed -/
 theorem aex_facts (cfg : Cfg) (s : LEx) (mgr : Nat) (hm : s.isMgr = fun a => a == mgr) (w : Bool)
     (auth : List Nat) (op : GOp) {st' : St} (h : applyAEx cfg s auth op = some st') :
-    ∃ s', st' = .aex s' ∧ s'.isMgr = s.isMgr ∧ ListFacts true true mgr s.t.listed (lineOf w auth op) s'.t.listed := by
+    ∃ s', st' = .aex s' ∧ s'.isMgr = s.isMgr ∧ ListFacts true true mgr s.t.listed (lineOf w auth op) s'.t.listed ∧
+      ListEvFacts true s.t.listed (lineOf w auth op) ((s'.t.log.drop s.t.log.length).filter isListEv) (s' = s) := by
   cases op <;> simp only [applyAEx] at h <;> try cases h
   case tok o =>
     obtain ⟨s', hx, e⟩ := okSt_some h
     obtain ⟨hl, hmg⟩ := aex_tok_listed hx
-    refine ⟨s', e, hmg, ⟨?_, fun _ hg => by simp [lineOf, Call.isGate] at hg, ?_⟩⟩
+    refine ⟨s', e, hmg, ⟨?_, fun _ hg => by simp [lineOf, Call.isGate] at hg, ?_⟩, ?_⟩
     · intro p hp
       have hp' : p ∈ vetted o := by rw [← vetted_tok]; exact hp
       exact allowlist_gates_example cfg s s' auth o hx p hp'
     · rw [hl]; exact (listStep_fungible _ _ _ _ _).symm
+    · rw [aex_tok_log hx]; exact listEv_tok _ _ _ _ _ _ _ _
   case setList u on x =>
     cases x <;> simp only at h <;> try cases h
     rename_i operator
     obtain ⟨s', hx, e⟩ := okSt_some h
     obtain ⟨hl, hmg⟩ := aex_set_listed hx
+    have hs' := aex_set_eq hx
+    obtain ⟨f1, f2⟩ := setFn_facts true on s.t u
     obtain ⟨h1, h2⟩ := (list_change_needs_manager cfg s s' auth u operator on).1 hx
     have hop : operator = mgr := by rw [hm] at h1; simpa using h1
-    refine ⟨s', e, hmg, ⟨?_, fun _ _ => ⟨by simp [lineOf, hop], hop ▸ h2⟩, ?_⟩⟩
+    refine ⟨s', e, hmg, ⟨?_, fun _ _ => ⟨by simp [lineOf, hop], hop ▸ h2⟩, ?_⟩, ?_⟩
     · intro p hp; simp [lineOf, vettedOfCall] at hp
     · rw [hl]; exact (listStep_set _ _ _ _ _ _ _).symm
+    · exact listEv_set _ _ _ _ _ _ _ _ _ _ _ (by rw [hs']; exact f2) (fun hg => by rw [hs', f1 hg])
 
 /-- **fungible-blocklist example** -/
 theorem bex_facts (cfg : Cfg) (s : LEx) (mgr : Nat) (hm : s.isMgr = fun a => a == mgr) (w : Bool)
     (auth : List Nat) (op : GOp) {st' : St} (h : applyBEx cfg s auth op = some st') :
-    ∃ s', st' = .bex s' ∧ s'.isMgr = s.isMgr ∧ ListFacts false true mgr s.t.listed (lineOf w auth op) s'.t.listed := by
+    ∃ s', st' = .bex s' ∧ s'.isMgr = s.isMgr ∧ ListFacts false true mgr s.t.listed (lineOf w auth op) s'.t.listed ∧
+      ListEvFacts false s.t.listed (lineOf w auth op) ((s'.t.log.drop s.t.log.length).filter isListEv) (s' = s) := by
   cases op <;> simp only [applyBEx] at h <;> try cases h
   case tok o =>
     obtain ⟨s', hx, e⟩ := okSt_some h
     obtain ⟨hl, hmg⟩ := bex_tok_listed hx
-    refine ⟨s', e, hmg, ⟨?_, fun _ hg => by simp [lineOf, Call.isGate] at hg, ?_⟩⟩
+    refine ⟨s', e, hmg, ⟨?_, fun _ hg => by simp [lineOf, Call.isGate] at hg, ?_⟩, ?_⟩
     · intro p hp
       have hp' : p ∈ vetted o := by rw [← vetted_tok]; exact hp
       exact blocklist_gates_example cfg s s' auth o hx p hp'
     · rw [hl]; exact (listStep_fungible _ _ _ _ _).symm
+    · rw [bex_tok_log hx]; exact listEv_tok _ _ _ _ _ _ _ _
   case setList u on x =>
     cases x <;> simp only at h <;> try cases h
     rename_i operator
     obtain ⟨s', hx, e⟩ := okSt_some h
     obtain ⟨hl, hmg⟩ := bex_set_listed hx
+    have hs' := bex_set_eq hx
+    obtain ⟨f1, f2⟩ := setFn_facts false on s.t u
     obtain ⟨h1, h2⟩ := (list_change_needs_manager cfg s s' auth u operator on).2 hx
     have hop : operator = mgr := by rw [hm] at h1; simpa using h1
-    refine ⟨s', e, hmg, ⟨?_, fun _ _ => ⟨by simp [lineOf, hop], hop ▸ h2⟩, ?_⟩⟩
+    refine ⟨s', e, hmg, ⟨?_, fun _ _ => ⟨by simp [lineOf, hop], hop ▸ h2⟩, ?_⟩, ?_⟩
     · intro p hp; simp [lineOf, vettedOfCall] at hp
     · rw [hl]; exact (listStep_set _ _ _ _ _ _ _).symm
+    · exact listEv_set _ _ _ _ _ _ _ _ _ _ _ (by rw [hs']; exact f2) (fun hg => by rw [hs', f1 hg])
 
 /-- **capped token**, one call: the cap stays and the supply stays at or below it -/
 theorem cap_facts (cfg : Cfg) (s : CTok) (cap : Int) (hc : s.cap = some cap) (hs : s.tok.supply ≤ cap)
@@ -367,111 +393,124 @@ structure Agree (m : Mon) (x : MSt) : Prop where
 /-- all gate checks are silent on observation `o` of the call `l`, and the monitor's new ghost state
 describes the machine `st'` -/
 def Quiet (m : Mon) (l : Line) (o : Obs) (st' : St) : Prop :=
-  vPause m l o = none ∧ vList m l o = none ∧ vCap m l o = none ∧ vMig m l o = none ∧
+  vPause m l o = none ∧ vList m l o = none ∧ vListEv m l o = none ∧ vCap m l o = none ∧ vMig m l o = none ∧
   AgreeSt (checkCore m l o).1 st'
 
 /-- a call the model rejects: the gate checks are silent on the (unchanged) getters -/
-theorem rejected_quiet {m : Mon} {st : St} (ha : AgreeSt m st) (l : Line) (now : Nat) :
-    Quiet m l (modelObs ⟨st, now⟩ false) st := by
+theorem rejected_quiet {m : Mon} {st : St} (ha : AgreeSt m st) (l : Line) (now : Nat) (ev : List GEvent) :
+    Quiet m l (modelObs ⟨st, now⟩ false ev) st := by
+  have qe : vListEv m l (modelObs ⟨st, now⟩ false ev) = none := vListEv_rejected rfl
   cases st with
   | ptok s =>
     obtain ⟨hk, hp, ho⟩ := ha
-    obtain ⟨q, hs⟩ := pause_rejected (m := m) (l := l) (o := modelObs ⟨.ptok s, now⟩ false) rfl hp.symm
-    exact ⟨q, vList_off (by rw [hk]; rfl), vCap_off (by rw [hk]; decide), vMig_off (by rw [hk]; decide),
+    obtain ⟨q, hs⟩ := pause_rejected (m := m) (l := l) (o := modelObs ⟨.ptok s, now⟩ false ev) rfl hp.symm
+    exact ⟨q, vList_off (by rw [hk]; rfl), qe, vCap_off (by rw [hk]; decide), vMig_off (by rw [hk]; decide),
       hk, hs.trans hp, ho⟩
   | pcnt s =>
     obtain ⟨hk, hp, ho⟩ := ha
-    obtain ⟨q, hs⟩ := pause_rejected (m := m) (l := l) (o := modelObs ⟨.pcnt s, now⟩ false) rfl hp.symm
-    exact ⟨q, vList_off (by rw [hk]; rfl), vCap_off (by rw [hk]; decide), vMig_off (by rw [hk]; decide),
+    obtain ⟨q, hs⟩ := pause_rejected (m := m) (l := l) (o := modelObs ⟨.pcnt s, now⟩ false ev) rfl hp.symm
+    exact ⟨q, vList_off (by rw [hk]; rfl), qe, vCap_off (by rw [hk]; decide), vMig_off (by rw [hk]; decide),
       hk, hs.trans hp, ho⟩
   | alib s =>
     obtain ⟨hk, hg⟩ := ha
-    obtain ⟨q, hs⟩ := list_rejected (m := m) (l := l) (o := modelObs ⟨.alib s, now⟩ false) rfl (by rw [hg]; rfl)
-    exact ⟨vPause_off (by rw [hk]; rfl), q, vCap_off (by rw [hk]; decide), vMig_off (by rw [hk]; decide),
+    obtain ⟨q, hs⟩ := list_rejected (m := m) (l := l) (o := modelObs ⟨.alib s, now⟩ false ev) rfl (by rw [hg]; rfl)
+    exact ⟨vPause_off (by rw [hk]; rfl), q, qe, vCap_off (by rw [hk]; decide), vMig_off (by rw [hk]; decide),
       hk, hs.trans hg⟩
   | blib s =>
     obtain ⟨hk, hg⟩ := ha
-    obtain ⟨q, hs⟩ := list_rejected (m := m) (l := l) (o := modelObs ⟨.blib s, now⟩ false) rfl (by rw [hg]; rfl)
-    exact ⟨vPause_off (by rw [hk]; rfl), q, vCap_off (by rw [hk]; decide), vMig_off (by rw [hk]; decide),
+    obtain ⟨q, hs⟩ := list_rejected (m := m) (l := l) (o := modelObs ⟨.blib s, now⟩ false ev) rfl (by rw [hg]; rfl)
+    exact ⟨vPause_off (by rw [hk]; rfl), q, qe, vCap_off (by rw [hk]; decide), vMig_off (by rw [hk]; decide),
       hk, hs.trans hg⟩
   | aex s =>
     obtain ⟨hk, hg, hm⟩ := ha
-    obtain ⟨q, hs⟩ := list_rejected (m := m) (l := l) (o := modelObs ⟨.aex s, now⟩ false) rfl (by rw [hg]; rfl)
-    exact ⟨vPause_off (by rw [hk]; rfl), q, vCap_off (by rw [hk]; decide), vMig_off (by rw [hk]; decide),
+    obtain ⟨q, hs⟩ := list_rejected (m := m) (l := l) (o := modelObs ⟨.aex s, now⟩ false ev) rfl (by rw [hg]; rfl)
+    exact ⟨vPause_off (by rw [hk]; rfl), q, qe, vCap_off (by rw [hk]; decide), vMig_off (by rw [hk]; decide),
       hk, hs.trans hg, hm⟩
   | bex s =>
     obtain ⟨hk, hg, hm⟩ := ha
-    obtain ⟨q, hs⟩ := list_rejected (m := m) (l := l) (o := modelObs ⟨.bex s, now⟩ false) rfl (by rw [hg]; rfl)
-    exact ⟨vPause_off (by rw [hk]; rfl), q, vCap_off (by rw [hk]; decide), vMig_off (by rw [hk]; decide),
+    obtain ⟨q, hs⟩ := list_rejected (m := m) (l := l) (o := modelObs ⟨.bex s, now⟩ false ev) rfl (by rw [hg]; rfl)
+    exact ⟨vPause_off (by rw [hk]; rfl), q, qe, vCap_off (by rw [hk]; decide), vMig_off (by rw [hk]; decide),
       hk, hs.trans hg, hm⟩
   | cap s =>
     obtain ⟨hk, hc, hs⟩ := ha
-    exact ⟨vPause_off (by rw [hk]; rfl), vList_off (by rw [hk]; rfl),
-      vCap_none (o := modelObs ⟨.cap s, now⟩ false) hc hs, vMig_off (by rw [hk]; decide), hk, hc, hs⟩
+    exact ⟨vPause_off (by rw [hk]; rfl), vList_off (by rw [hk]; rfl), qe,
+      vCap_none (o := modelObs ⟨.cap s, now⟩ false ev) hc hs, vMig_off (by rw [hk]; decide), hk, hc, hs⟩
   | mig s v =>
     obtain ⟨hk, hc, ho⟩ := ha
-    obtain ⟨q, hs⟩ := mig_rejected (m := m) (l := l) (o := modelObs ⟨.mig s v, now⟩ false) rfl hc.symm
-    exact ⟨vPause_off (by rw [hk]; rfl), vList_off (by rw [hk]; rfl), vCap_off (by rw [hk]; decide), q,
+    obtain ⟨q, hs⟩ := mig_rejected (m := m) (l := l) (o := modelObs ⟨.mig s v, now⟩ false ev) rfl hc.symm
+    exact ⟨vPause_off (by rw [hk]; rfl), vList_off (by rw [hk]; rfl), qe, vCap_off (by rw [hk]; decide), q,
       hk, hs.trans hc, ho⟩
   | bad => exact ha.elim
 
-/-- a call the model accepts: the gate checks are silent on the new getters -/
-theorem accepted_quiet (cfg : Cfg) {m : Mon} {st : St} (ha : AgreeSt m st) (w : Bool) (auth : List Nat) (op : GOp)
+/-- a call the model accepts: the gate checks are silent on the new getters and on the list events the
+call emitted (`now0`, `hprev`: the previous observation the monitor remembers, if any, is the one of the
+state before the call) -/
+theorem accepted_quiet (cfg : Cfg) {m : Mon} {st : St} (ha : AgreeSt m st) (now0 : Nat)
+    (hprev : m.prev = none ∨ m.prev = some (stableOf ⟨st, now0⟩)) (w : Bool) (auth : List Nat) (op : GOp)
     {st' : St} (hap : applyModel cfg st auth op = some st') (now : Nat) :
-    Quiet m (lineOf w auth op) (modelObs ⟨st', now⟩ true) st' := by
+    Quiet m (lineOf w auth op) (modelObs ⟨st', now⟩ true (newEvents st st')) st' := by
   cases st with
   | ptok s =>
     obtain ⟨hk, hp, ho⟩ := ha
     obtain ⟨s', rfl, ho', F⟩ := ptok_facts cfg s w auth op hap
-    obtain ⟨q, hs⟩ := pause_accepted (m := m) (o := modelObs ⟨.ptok s', now⟩ true) (by rw [hk]; rfl) rfl rfl
-      (by rw [hp, ho]; exact F)
-    exact ⟨q, vList_off (by rw [hk]; rfl), vCap_off (by rw [hk]; decide), vMig_off (by rw [hk]; decide),
-      hk, hs, ho.trans ho'.symm⟩
+    obtain ⟨q, hs⟩ := pause_accepted (m := m) (o := modelObs ⟨.ptok s', now⟩ true (newEvents (.ptok s) (.ptok s')))
+      (by rw [hk]; rfl) rfl rfl (by rw [hp, ho]; exact F)
+    exact ⟨q, vList_off (by rw [hk]; rfl), vListEv_off (by rw [hk]; rfl), vCap_off (by rw [hk]; decide),
+      vMig_off (by rw [hk]; decide), hk, hs, ho.trans ho'.symm⟩
   | pcnt s =>
     obtain ⟨hk, hp, ho⟩ := ha
     obtain ⟨s', rfl, ho', F⟩ := pcnt_facts s w auth op hap
-    obtain ⟨q, hs⟩ := pause_accepted (m := m) (o := modelObs ⟨.pcnt s', now⟩ true) (by rw [hk]; rfl) rfl rfl
-      (by rw [hp, ho]; exact F)
-    exact ⟨q, vList_off (by rw [hk]; rfl), vCap_off (by rw [hk]; decide), vMig_off (by rw [hk]; decide),
-      hk, hs, ho.trans ho'.symm⟩
+    obtain ⟨q, hs⟩ := pause_accepted (m := m) (o := modelObs ⟨.pcnt s', now⟩ true (newEvents (.pcnt s) (.pcnt s')))
+      (by rw [hk]; rfl) rfl rfl (by rw [hp, ho]; exact F)
+    exact ⟨q, vList_off (by rw [hk]; rfl), vListEv_off (by rw [hk]; rfl), vCap_off (by rw [hk]; decide),
+      vMig_off (by rw [hk]; decide), hk, hs, ho.trans ho'.symm⟩
   | alib s =>
     obtain ⟨hk, hg⟩ := ha
-    obtain ⟨s', rfl, F⟩ := alib_facts cfg s m.mgr w auth op hap
-    obtain ⟨q, hs⟩ := list_accepted (m := m) (o := modelObs ⟨.alib s', now⟩ true) (by rw [hk]; rfl) rfl rfl
-      (by rw [hk, hg]; exact F)
-    exact ⟨vPause_off (by rw [hk]; rfl), q, vCap_off (by rw [hk]; decide), vMig_off (by rw [hk]; decide), hk, hs⟩
+    obtain ⟨s', rfl, F, E⟩ := alib_facts cfg s m.mgr w auth op hap
+    obtain ⟨q, hs⟩ := list_accepted (m := m) (o := modelObs ⟨.alib s', now⟩ true (newEvents (.alib s) (.alib s')))
+      (by rw [hk]; rfl) rfl rfl (by rw [hk, hg]; exact F)
+    have qe : vListEv m (lineOf w auth op) (modelObs ⟨.alib s', now⟩ true (newEvents (.alib s) (.alib s'))) = none :=
+      listEv_accepted (unchanged := s' = s) (by rw [hk, hg]; exact E) (fun e => by rw [e]; exact hprev)
+    exact ⟨vPause_off (by rw [hk]; rfl), q, qe, vCap_off (by rw [hk]; decide), vMig_off (by rw [hk]; decide), hk, hs⟩
   | blib s =>
     obtain ⟨hk, hg⟩ := ha
-    obtain ⟨s', rfl, F⟩ := blib_facts cfg s m.mgr w auth op hap
-    obtain ⟨q, hs⟩ := list_accepted (m := m) (o := modelObs ⟨.blib s', now⟩ true) (by rw [hk]; rfl) rfl rfl
-      (by rw [hk, hg]; exact F)
-    exact ⟨vPause_off (by rw [hk]; rfl), q, vCap_off (by rw [hk]; decide), vMig_off (by rw [hk]; decide), hk, hs⟩
+    obtain ⟨s', rfl, F, E⟩ := blib_facts cfg s m.mgr w auth op hap
+    obtain ⟨q, hs⟩ := list_accepted (m := m) (o := modelObs ⟨.blib s', now⟩ true (newEvents (.blib s) (.blib s')))
+      (by rw [hk]; rfl) rfl rfl (by rw [hk, hg]; exact F)
+    have qe : vListEv m (lineOf w auth op) (modelObs ⟨.blib s', now⟩ true (newEvents (.blib s) (.blib s'))) = none :=
+      listEv_accepted (unchanged := s' = s) (by rw [hk, hg]; exact E) (fun e => by rw [e]; exact hprev)
+    exact ⟨vPause_off (by rw [hk]; rfl), q, qe, vCap_off (by rw [hk]; decide), vMig_off (by rw [hk]; decide), hk, hs⟩
   | aex s =>
     obtain ⟨hk, hg, hm⟩ := ha
-    obtain ⟨s', rfl, hm', F⟩ := aex_facts cfg s m.mgr hm w auth op hap
-    obtain ⟨q, hs⟩ := list_accepted (m := m) (o := modelObs ⟨.aex s', now⟩ true) (by rw [hk]; rfl) rfl rfl
-      (by rw [hk, hg]; exact F)
-    exact ⟨vPause_off (by rw [hk]; rfl), q, vCap_off (by rw [hk]; decide), vMig_off (by rw [hk]; decide), hk, hs,
+    obtain ⟨s', rfl, hm', F, E⟩ := aex_facts cfg s m.mgr hm w auth op hap
+    obtain ⟨q, hs⟩ := list_accepted (m := m) (o := modelObs ⟨.aex s', now⟩ true (newEvents (.aex s) (.aex s')))
+      (by rw [hk]; rfl) rfl rfl (by rw [hk, hg]; exact F)
+    have qe : vListEv m (lineOf w auth op) (modelObs ⟨.aex s', now⟩ true (newEvents (.aex s) (.aex s'))) = none :=
+      listEv_accepted (unchanged := s' = s) (by rw [hk, hg]; exact E) (fun e => by rw [e]; exact hprev)
+    exact ⟨vPause_off (by rw [hk]; rfl), q, qe, vCap_off (by rw [hk]; decide), vMig_off (by rw [hk]; decide), hk, hs,
       hm'.trans hm⟩
   | bex s =>
     obtain ⟨hk, hg, hm⟩ := ha
-    obtain ⟨s', rfl, hm', F⟩ := bex_facts cfg s m.mgr hm w auth op hap
-    obtain ⟨q, hs⟩ := list_accepted (m := m) (o := modelObs ⟨.bex s', now⟩ true) (by rw [hk]; rfl) rfl rfl
-      (by rw [hk, hg]; exact F)
-    exact ⟨vPause_off (by rw [hk]; rfl), q, vCap_off (by rw [hk]; decide), vMig_off (by rw [hk]; decide), hk, hs,
+    obtain ⟨s', rfl, hm', F, E⟩ := bex_facts cfg s m.mgr hm w auth op hap
+    obtain ⟨q, hs⟩ := list_accepted (m := m) (o := modelObs ⟨.bex s', now⟩ true (newEvents (.bex s) (.bex s')))
+      (by rw [hk]; rfl) rfl rfl (by rw [hk, hg]; exact F)
+    have qe : vListEv m (lineOf w auth op) (modelObs ⟨.bex s', now⟩ true (newEvents (.bex s) (.bex s'))) = none :=
+      listEv_accepted (unchanged := s' = s) (by rw [hk, hg]; exact E) (fun e => by rw [e]; exact hprev)
+    exact ⟨vPause_off (by rw [hk]; rfl), q, qe, vCap_off (by rw [hk]; decide), vMig_off (by rw [hk]; decide), hk, hs,
       hm'.trans hm⟩
   | cap s =>
     obtain ⟨hk, hc, hs⟩ := ha
     obtain ⟨s', rfl, hc', hs'⟩ := cap_facts cfg s m.cap hc hs auth op hap
-    exact ⟨vPause_off (by rw [hk]; rfl), vList_off (by rw [hk]; rfl),
-      vCap_none (o := modelObs ⟨.cap s', now⟩ true) hc' hs', vMig_off (by rw [hk]; decide), hk, hc', hs'⟩
+    exact ⟨vPause_off (by rw [hk]; rfl), vList_off (by rw [hk]; rfl), vListEv_off (by rw [hk]; rfl),
+      vCap_none (o := modelObs ⟨.cap s', now⟩ true (newEvents (.cap s) (.cap s'))) hc' hs', vMig_off (by rw [hk]; decide),
+      hk, hc', hs'⟩
   | mig s v =>
     obtain ⟨hk, hc, ho⟩ := ha
     obtain ⟨s', v', rfl, ho', F⟩ := mig_facts s v w auth op hap
-    obtain ⟨q, hs⟩ := mig_accepted (m := m) (o := modelObs ⟨.mig s' v', now⟩ true) rfl rfl
-      (by rw [hc, ho]; exact F)
-    exact ⟨vPause_off (by rw [hk]; rfl), vList_off (by rw [hk]; rfl), vCap_off (by rw [hk]; decide), q,
-      hk, hs, ho.trans ho'.symm⟩
+    obtain ⟨q, hs⟩ := mig_accepted (m := m) (o := modelObs ⟨.mig s' v', now⟩ true (newEvents (.mig s v) (.mig s' v')))
+      rfl rfl (by rw [hc, ho]; exact F)
+    exact ⟨vPause_off (by rw [hk]; rfl), vList_off (by rw [hk]; rfl), vListEv_off (by rw [hk]; rfl),
+      vCap_off (by rw [hk]; decide), q, hk, hs, ho.trans ho'.symm⟩
   | bad => exact ha.elim
 
 /-! ## soundness -/
@@ -479,19 +518,20 @@ theorem accepted_quiet (cfg : Cfg) {m : Mon} {st : St} (ha : AgreeSt m st) (w : 
 /-- **one call**: fed with the model's own observation of any call (accepted or rejected) of any of
 the eight machines, the monitor reports nothing and its state keeps describing the model's -/
 theorem monitor_sound_step (cfg : Cfg) {m : Mon} {x : MSt} (ha : Agree m x) (w : Bool) (auth : List Nat) (op : GOp) :
-    (checkCore m (lineOf w auth op) (modelObs (stepM cfg x auth op).1 (stepM cfg x auth op).2)).2 = none ∧
-    Agree (checkCore m (lineOf w auth op) (modelObs (stepM cfg x auth op).1 (stepM cfg x auth op).2)).1
-      (stepM cfg x auth op).1 := by
+    (checkCore m (lineOf w auth op) (modelObs (stepM cfg x auth op).1 (stepM cfg x auth op).2
+      (newEvents x.st (stepM cfg x auth op).1.st))).2 = none ∧
+    Agree (checkCore m (lineOf w auth op) (modelObs (stepM cfg x auth op).1 (stepM cfg x auth op).2
+      (newEvents x.st (stepM cfg x auth op).1.st))).1 (stepM cfg x auth op).1 := by
   obtain ⟨st, now⟩ := x
   cases hap : applyModel cfg st auth op with
   | none =>
     rw [stepM_none hap]
-    obtain ⟨q1, q2, q3, q4, q5⟩ := rejected_quiet ha.st (lineOf w auth op) now
-    exact ⟨verdict_none (vRollback_none (fun _ => ha.prev)) q1 q2 q3 q4, ⟨Or.inr rfl, q5⟩⟩
+    obtain ⟨q1, q2, q2', q3, q4, q5⟩ := rejected_quiet ha.st (lineOf w auth op) now (newEvents st st)
+    exact ⟨verdict_none (vRollback_none (fun _ => ha.prev)) q1 q2 q2' q3 q4, ⟨Or.inr rfl, q5⟩⟩
   | some st' =>
     rw [stepM_some hap]
-    obtain ⟨q1, q2, q3, q4, q5⟩ := accepted_quiet cfg ha.st w auth op hap (nowStep now op)
-    exact ⟨verdict_none (vRollback_none (fun h => by cases h)) q1 q2 q3 q4, ⟨Or.inr rfl, q5⟩⟩
+    obtain ⟨q1, q2, q2', q3, q4, q5⟩ := accepted_quiet cfg ha.st now ha.prev w auth op hap (nowStep now op)
+    exact ⟨verdict_none (vRollback_none (fun h => by cases h)) q1 q2 q2' q3 q4, ⟨Or.inr rfl, q5⟩⟩
 
 /-- one item of a history: the authorizing addresses, the call, and the wording of a list change on
 the op line (`true`: `block` / `unblock`, `false`: `allow` / `disallow`) -/
@@ -502,10 +542,12 @@ def monitorRun (cfg : Cfg) : Mon → MSt → List Item → Option String
   | _, _, [] => none
   | m, x, a :: as =>
     match (checkCore m (lineOf a.2.2 a.1 a.2.1)
-        (modelObs (stepM cfg x a.1 a.2.1).1 (stepM cfg x a.1 a.2.1).2)).2 with
+        (modelObs (stepM cfg x a.1 a.2.1).1 (stepM cfg x a.1 a.2.1).2
+          (newEvents x.st (stepM cfg x a.1 a.2.1).1.st))).2 with
     | some msg => some msg
     | none => monitorRun cfg
-        (checkCore m (lineOf a.2.2 a.1 a.2.1) (modelObs (stepM cfg x a.1 a.2.1).1 (stepM cfg x a.1 a.2.1).2)).1
+        (checkCore m (lineOf a.2.2 a.1 a.2.1) (modelObs (stepM cfg x a.1 a.2.1).1 (stepM cfg x a.1 a.2.1).2
+          (newEvents x.st (stepM cfg x a.1 a.2.1).1.st))).1
         (stepM cfg x a.1 a.2.1).1 as
 
 /-- the states the driver's `minitM` and `initM` build from a label agree, whenever the model's
@@ -637,7 +679,7 @@ example :
       ⟨.fungible .burn, [2], [2], 0⟩
       ⟨true, { sup := 960, bal := [900, 0, 60, 0, 0], allow := [], now := 100, paused := false, counter := 0,
                list := [true, false, false, false, false], cap := none, migrating := false, data := none,
-               wasm := false }⟩).2.isSome = true := by
+               wasm := false }, []⟩).2.isSome = true := by
   simp [checkCore, verdict, orElse, vRollback, vPause, vList, MKind.hasPause, MKind.isList, MKind.allowKind,
     Line.idle, ghostStep, listStep, statusList, NU, List.range, List.range.loop, vettedOfCall, vettedOf]
 
@@ -647,7 +689,7 @@ example :
                  credit := false, prev := none }
       ⟨.fungible .transfer, [1, 3], [1], 0⟩
       ⟨true, { sup := 1500, bal := [1000, 490, 0, 10, 0], allow := [], now := 100, paused := true, counter := 0,
-               list := [], cap := none, migrating := false, data := none, wasm := false }⟩).2.isSome = true := by
+               list := [], cap := none, migrating := false, data := none, wasm := false }, []⟩).2.isSome = true := by
   simp [checkCore, verdict, orElse, vRollback, vPause, MKind.hasPause, isPausable]
 
 /-- total supply one above the cap — `site=capped.exceeded` -/
@@ -656,8 +698,8 @@ example :
                  credit := false, prev := none }
       ⟨.fungible .mint, [2], [], 0⟩
       ⟨true, { sup := 1001, bal := [0, 500, 501, 0, 0], allow := [], now := 100, paused := false, counter := 0,
-               list := [], cap := some 1000, migrating := false, data := none, wasm := false }⟩).2.isSome = true := by
-  simp [checkCore, verdict, orElse, vRollback, vPause, vList, vCap, MKind.hasPause, MKind.isList, Line.idle]
+               list := [], cap := some 1000, migrating := false, data := none, wasm := false }, []⟩).2.isSome = true := by
+  simp [checkCore, verdict, orElse, vRollback, vPause, vList, vListEv, vCap, MKind.hasPause, MKind.isList, Line.idle]
 
 /-- a migrate accepted with no enable / upgrade since the last completion —
 `site=migration.without_upgrade.migrate` -/
@@ -666,8 +708,8 @@ example :
                  credit := false, prev := none }
       ⟨.gate .migrate, [0], [0], 0⟩
       ⟨true, { sup := 0, bal := [], allow := [], now := 100, paused := false, counter := 0, list := [], cap := none,
-               migrating := false, data := some (1, 2), wasm := false }⟩).2.isSome = true := by
-  simp [checkCore, verdict, orElse, vRollback, vPause, vList, vCap, vMig, MKind.hasPause, MKind.isList]
+               migrating := false, data := some (1, 2), wasm := false }, []⟩).2.isSome = true := by
+  simp [checkCore, verdict, orElse, vRollback, vPause, vList, vListEv, vCap, vMig, MKind.hasPause, MKind.isList]
 
 /-- a rejected call after which `paused()` reads differently — `site=gates.rollback.pcnt` -/
 example :
@@ -676,7 +718,33 @@ example :
                                 cap := none, migrating := false, data := none, wasm := false } }
       ⟨.gate .increment, [], [], 0⟩
       ⟨false, { sup := 0, bal := [], allow := [], now := 100, paused := false, counter := 2, list := [], cap := none,
-                migrating := false, data := none, wasm := false }⟩).2.isSome = true := by
+                migrating := false, data := none, wasm := false }, []⟩).2.isSome = true := by
   simp [checkCore, verdict, orElse, vRollback]
+
+/-- the observation of the seeded change "a redundant allow-list change is announced again": account 2 is
+already allowed, `allow 2` is accepted, leaves `allowed()` as it was and emits `allowed:2` once more —
+`site=list.idempotent.alib` -/
+example :
+    (checkCore { kind := .alib, owner := 0, mgr := 1, cap := 0, paused := false, ghost := fun i => i == 2,
+                 credit := false, prev := none }
+      ⟨.gate .allow, [2], [], 0⟩
+      ⟨true, { sup := 0, bal := [0, 0, 0, 0, 0], allow := [], now := 100, paused := false, counter := 0,
+               list := [false, false, true, false, false], cap := none, migrating := false, data := none,
+               wasm := false }, [.userAllowed 2]⟩).2.isSome = true := by
+  simp [checkCore, verdict, orElse, vRollback, vPause, vList, vListEv, MKind.hasPause, MKind.isList, MKind.allowKind,
+    MKind.isEx, Line.idle, ghostStep, listStep, statusList, NU, List.range, List.range.loop, vettedOfCall, upd,
+    Call.isGate, noopF, setOf]
+
+/-- a real change (`block 3` of a not-blocked account) that emits nothing — `site=list.event.blib` -/
+example :
+    (checkCore { kind := .blib, owner := 0, mgr := 1, cap := 0, paused := false, ghost := fun _ => false,
+                 credit := false, prev := none }
+      ⟨.gate .block, [3], [], 0⟩
+      ⟨true, { sup := 0, bal := [0, 0, 0, 0, 0], allow := [], now := 100, paused := false, counter := 0,
+               list := [false, false, false, true, false], cap := none, migrating := false, data := none,
+               wasm := false }, []⟩).2.isSome = true := by
+  simp [checkCore, verdict, orElse, vRollback, vPause, vList, vListEv, MKind.hasPause, MKind.isList, MKind.allowKind,
+    MKind.isEx, Line.idle, ghostStep, listStep, statusList, NU, List.range, List.range.loop, vettedOfCall, upd,
+    Call.isGate, noopF, setOf, expectedEvF]
 
 end OZ.Gates.Mon
